@@ -411,6 +411,13 @@ def simulate(env, q, cached, admits):
                 a0 = action.parameters[0]
                 if isinstance(a0, StringActionParameter):
                     ev(parse(a0.string))
+            if action.name == "subin":
+                # a sub-evaluation on an injected input: always executed, never cached
+                from liquer.parser import StringActionParameter
+
+                a0 = action.parameters[0]
+                if isinstance(a0, StringActionParameter):
+                    executed.extend(a.name for a in parse(a0.string).segments[0].query)
         out = env.interp(key)
         if out is not None and out.ok and not out.volatile and out.caching and admits(out.attributes):
             cached.add(key)
